@@ -79,6 +79,12 @@ func mintParamsFor(r *rand.Rand) minttypes.Params {
 		infl := pick(r, []string{"0.1", "0.229787234042553191", "0.01", "0", "1", "0.000001", "0.5", "0.033333333333333333"})
 		p.Phases = append(p.Phases, minttypes.Phase{YearCoefficient: sdkmath.LegacyMustNewDecFromStr(coef), Inflation: sdkmath.LegacyMustNewDecFromStr(infl)})
 	}
-	p.ExcludeAmount = sdkmath.NewInt(pick(r, []int64{0, 0, 1000000, 999999999}))
+	p.ExcludeAmount = sdkmath.NewInt(pick(r, []int64{0, 0, 1000000, 999999999, 99999999999999}))
+	// keep the genesis valid: every phase at least one block long (boundary: exactly one block)
+	for i := range p.Phases {
+		for !p.Phases[i].YearCoefficient.MulInt64(p.BlocksPerYear).TruncateInt().IsPositive() {
+			p.Phases[i].YearCoefficient = p.Phases[i].YearCoefficient.MulInt64(2)
+		}
+	}
 	return p
 }
